@@ -47,6 +47,34 @@ fn to_cfg(g: &Gram) -> Cfg {
     cfg
 }
 
+/// Like `to_cfg`, but the non-terminal occurrences on right-hand sides are decorated the way a PAR text can
+/// decorate them (`N^`, `N@member`, a repetition/option attribute as canonicalisation leaves it): two bits of
+/// `mask` per occurrence. Decorations must not influence augmentation (seeded change mut-C12).
+fn to_cfg_decorated(g: &Gram, mask: u64) -> Cfg {
+    let mut cfg = Cfg::with_start_symbol(&nt_name(g.start));
+    let mut j = 0u32;
+    for (l, r) in &g.prods {
+        let rhs = r
+            .iter()
+            .map(|s| match s {
+                Sym::T(a) => Symbol::T(Terminal::t(&crate::cfgenc::t_text(*a), vec![0], SymbolAttribute::None)),
+                Sym::N(a) => {
+                    let d = (mask >> (2 * (j % 32))) & 3;
+                    j += 1;
+                    match d {
+                        0 => Symbol::n(&nt_name(*a)),
+                        1 => Symbol::N(nt_name(*a), SymbolAttribute::Clipped, None, None),
+                        2 => Symbol::N(nt_name(*a), SymbolAttribute::None, None, Some("rest".to_string())),
+                        _ => Symbol::N(nt_name(*a), SymbolAttribute::Option, None, None),
+                    }
+                }
+            })
+            .collect();
+        cfg = cfg.add_pr(Pr::new(&nt_name(*l), rhs));
+    }
+    cfg
+}
+
 fn from_cfg(cfg: &Cfg) -> Option<Gram> {
     let start = nt_index(&cfg.st)?;
     let mut prods = vec![];
@@ -67,11 +95,14 @@ fn from_cfg(cfg: &Cfg) -> Option<Gram> {
 
 pub fn run_case(w: &[&str]) -> Option<String> {
     match w {
-        ["augment", ign, st, prods] => {
+        ["augment", ign, st, prods] | ["augment-attr", ign, st, prods, _] => {
             let g = Gram::parse(st, prods)?;
             let ign: Vec<usize> = parse_nats(ign)?;
             let ignored: BTreeSet<String> = ign.iter().map(|i| nt_name(*i)).collect();
-            let cfg = to_cfg(&g);
+            let cfg = match w {
+                [_, _, _, _, mask] => to_cfg_decorated(&g, mask.parse().ok()?),
+                _ => to_cfg(&g),
+            };
             let aug = augment_grammar(&cfg);
             let name = aug.st.clone();
             let shown = match from_cfg(&aug) {
@@ -213,6 +244,10 @@ pub fn generate(seed: u64, thorough: bool) -> Vec<String> {
         let g = biased_gram(&mut rng);
         let ign: Vec<usize> = if i % 7 == 0 { g.nts().into_iter().filter(|_| rng.chance(1, 3)).collect() } else { vec![] };
         out.push(line(&g, &ign));
+        if i % 3 == 0 {
+            // the same grammar with decorated non-terminal occurrences (`N^`, `N@rest`, option attribute)
+            out.push(format!("augment-attr {} {} {}", show_nats(&ign), g.show(), rng.next() >> 1));
+        }
     }
     // the naming rule on arbitrary names
     let nnames = if thorough { 6_000 } else { 1_500 };
